@@ -1466,6 +1466,20 @@ func genC15(c *Ctx) {
 		check("Apache-2.0-or-later\tAND " + j)
 		check("(Apache-2.0-or-later OR MIT-or-later) AND " + j)
 	}
+	// the same token sequence under different amounts of blank space, all in one process: an answer (or an error) that
+	// is remembered under a key which squeezes or trims blanks cites the offset of an earlier caller's string (C15-w8m1)
+	for _, j := range junk {
+		for _, pre := range []string{"MIT AND", "Apache-2.0-or-later OR", "(ISC"} {
+			for _, v := range []string{pre + " " + j, pre + "    " + j, "  " + pre + " " + j, " " + strings.Replace(pre, " ", "   ", 1) + "  " + j, pre + " " + j + "  ", "    " + pre + "     " + j + " "} {
+				check(v)
+				c.count("blank_space_variants")
+				q := c.Q(v, []string{"MIT"})
+				if q != unknown {
+					located("the expression", v, q, map[string]interface{}{"expression": v, "allowed": []string{"MIT"}})
+				}
+			}
+		}
+	}
 	goodEntries := []string{"MIT", "Apache-1.0-or-later", "MIT-or-later", "GPL-2.0-or-later", "(Zlib-or-later)", " ISC-or-later"}
 	for i, p := range prefixes {
 		if i%3 != 0 && !c.thorough() {
